@@ -93,6 +93,13 @@ def check_write(ctx, w, s):
 
 
 def run_write_enum(ctx, case):
+    if "pair" in case:
+        w = case["w"]
+        p = chr(case["pair"][0]) + chr(case["pair"][1])
+        s = {"start": p + "abc", "end": "abc" + p, "alone": p}[case["where"]]
+        check_write(ctx, w, s)
+        ctx.case(case, True, labels=(f"w={w}", "pair"))
+        return
     w, L, pos, cp = case["w"], case["len"], case["pos"], case["cp"]
     chars = ["a"] * L
     if L:
@@ -102,9 +109,18 @@ def run_write_enum(ctx, case):
     ctx.case(case, _nontrivial(s, w), labels=(f"w={w}", "refused" if (not cp1252.encodable(s) or L > w - 1) else "stored"))
 
 
+PAIR_CHARS = "\r\n\t\x0b\x0c\x1a\x1b \\\"'%/x0{}\x7f\xa0\xad\u20ac\u2026\u0153\xe9\xff\x01a"
+
+
 def enum_write(tier):
     cps = list(cp1252.ENCODABLE_CPS) + list(BAD_CPS)
     seen = set()
+    # every ordered pair of characters that codecs / escapes / trimming treat specially, at the start, inside and at the end
+    for w in (8, 32, 256):
+        for a in PAIR_CHARS:
+            for b in PAIR_CHARS:
+                for where in ("start", "end", "alone"):
+                    yield {"w": w, "pair": [ord(a), ord(b)], "where": where}
     for w in WIDTHS:
         lens = sorted({x for x in (0, 1, w - 2, w - 1, w, w + 1, w + 7) if x >= 0})
         for L in lens:
@@ -299,7 +315,12 @@ def sites_strategy(tier):
     def cases(draw):
         site = draw(st.sampled_from(SITE_NAMES))
         w = 32 if site.startswith("optical") else 256
-        kind = draw(st.sampled_from(["max", "max", "over", "over1", "short", "bad"]))
+        kind = draw(st.sampled_from(["max", "max", "over", "over1", "short", "bad", "pair", "pair"]))
+        if kind == "pair":
+            a, b = draw(st.sampled_from(PAIR_CHARS)), draw(st.sampled_from(PAIR_CHARS))
+            core = draw(st.text(st.sampled_from("abc"), max_size=3))
+            s = draw(st.sampled_from([a + b + core, core + a + b, a + core + b, a + b]))
+            return {"site": site, "s": [ord(c) for c in s]}
         ab = st.sampled_from(cp1252.ENCODABLE_CHARS)
         if kind == "max":
             s = draw(st.text(ab, min_size=w - 1, max_size=w - 1))
